@@ -17,7 +17,7 @@ func propC04() Property {
 		ID: "C04",
 		Explanation: "R1 (typestate): a recovering session that sent a TestRequest is pendingTimeout{resendState}; every type test on a session state value that has an arm for a type that can be wrapped must test an UNWRAPPED operand (the switch also handles the wrapper, or the operand comes from an unwrapping function). Otherwise recovery is treated as 'not recovering': a second ResendRequest is sent and the stash is replaced. " +
 			"R2: in the too-high arm the early message is stored in the returned state's stash under its own MsgSeqNum on every path that returns a recovery state. R3: every recovery state produced while already recovering (next chunk) carries the receiver's stash. " +
-			"R4: ResendRequest fields: BeginSeqNo(7) ← begin parameter; EndSeqNo(16) ← chunk end or the infinity marker, 999999 only below FIX.4.2 and 0 otherwise; the too-high handler requests (expected, received-1); continuation chunks begin at the store's next expected number. R5: the stash is drained by looking up and deleting exactly the store's next expected number and feeding the message to the in-session handler. R6: resendState is a value type whose copies share the stash only through the map; every function that creates a fresh recovery state allocates its stash before returning it, so that a message stashed through one copy is seen by the copy that is kept. R7 (shared with C01): the expected number advances only for a message shown to carry it — serving a ResendRequest numbered above the expectation must not consume the number of a message that never arrived.",
+			"R4: ResendRequest fields: BeginSeqNo(7) ← begin parameter; EndSeqNo(16) ← chunk end or the infinity marker, 999999 only below FIX.4.2 and 0 otherwise; the too-high handler requests (expected, received-1); continuation chunks begin at the store's next expected number. R5: the stash is drained by looking up and deleting exactly the store's next expected number and feeding the message to the in-session handler. R6: resendState is a value type whose copies share the stash only through the map; every function that creates a fresh recovery state allocates its stash before returning it, so that a message stashed through one copy is seen by the copy that is kept. R7 (shared with C01): the expected number advances only for a message shown to carry it — serving a ResendRequest numbered above the expectation must not consume the number of a message that never arrived. R8: the ResendRequest builder returns a nil error only on the nil-error edge of the call that sends the request.",
 		NotDecided: "liveness (that the stash is eventually drained), chunk arithmetic over histories, counts of ResendRequests over a trace.",
 		Rules: []RuleDef{
 			{ID: "C04-R1", Desc: "wrapper-transparent state tests", Min: 2, Run: c04R1},
@@ -27,14 +27,15 @@ func propC04() Property {
 			{ID: "C04-R5", Desc: "stash drained at the next expected number", Min: 3, Run: c04R5},
 			{ID: "C04-R6", Desc: "every freshly created recovery state owns an allocated stash", Min: 1, Run: c04R6},
 			{ID: "C04-R7", Desc: "the expected number advances only for a message that carries it (= C01-R2)", Min: 4, Run: c01R2},
+			{ID: "C04-R8", Desc: "the recovery state is returned only when the ResendRequest was sent", Min: 1, Run: c04R8},
 		},
 	}
 }
 
 type wrapInfo struct {
-	iface    *types.Named           // sessionState
-	wrappers []*types.Named         // pendingTimeout
-	inner    map[string]types.Type  // concrete types that get wrapped, by type string
+	iface    *types.Named          // sessionState
+	wrappers []*types.Named        // pendingTimeout
+	inner    map[string]types.Type // concrete types that get wrapped, by type string
 	field    map[*types.Named]*types.Var
 }
 
@@ -574,5 +575,61 @@ func c04R6(c *Ctx) {
 	}
 	if n == 0 {
 		c.Violation("", "-", "no-fresh-state", "no function creates a fresh recovery state")
+	}
+}
+
+// C04-R8: recovery starts only when the ResendRequest really went out. In the function that
+// builds the ResendRequest (sets BeginSeqNo and EndSeqNo) and returns the recovery state with an
+// error, every return whose error can be nil is reached only on the nil-error edge of the call
+// that sends the request — a send failure that is merely logged would put the session into
+// "recovery in progress" with no request on the wire, and every later message would be stashed
+// forever.
+func c04R8(c *Ctx) {
+	p := c.P
+	t7, t16 := p.Tag("tagBeginSeqNo"), p.Tag("tagEndSeqNo")
+	n := 0
+	for _, fn := range p.FuncsIn(modPath) {
+		if len(p.setTagCalls(fn, t7)) == 0 || len(p.setTagCalls(fn, t16)) == 0 {
+			continue
+		}
+		res := fn.Signature.Results()
+		if res.Len() == 0 || !isErrorType(res.At(res.Len()-1).Type()) {
+			continue
+		}
+		// the send: an error-returning in-module call that receives the built message
+		var root *Org
+		for _, st := range p.setTagCalls(fn, t7) {
+			root, _ = st.recv.FieldPath()
+		}
+		var send ssa.CallInstruction
+		for _, cl := range Calls(fn) {
+			cal := cl.Common().StaticCallee()
+			if cal == nil || !p.InModule(cal) || cal.Signature.Results().Len() != 1 || !isErrorType(cal.Signature.Results().At(0).Type()) {
+				continue
+			}
+			for _, a := range cl.Common().Args {
+				if root != nil && root.Val != nil && stripConv(a) == stripConv(root.Val) {
+					send = cl
+				}
+			}
+		}
+		name := FuncName(fn)
+		if send == nil {
+			c.Violation(name, p.Pos(fn.Pos()), "request-not-sent", "the ResendRequest builder does not hand the request to an error-returning send")
+			continue
+		}
+		for _, b := range fn.Blocks {
+			r, ok := b.Instrs[len(b.Instrs)-1].(*ssa.Return)
+			if !ok || !p.possibleSuccess(r) {
+				continue
+			}
+			n++
+			d := p.ReachCond(b)
+			c.Check(d.Implies(nilErrAtomFor(send.(ssa.Instruction))), name, p.InstrPos(r), "recovery-only-if-request-sent", "a nil error is returned only after the send of the ResendRequest returned nil",
+				"the recovery state is returned with a nil error under "+d.String()+", which does not require that the ResendRequest was sent: after a failed send the session is 'recovering' with no request on the wire, every later message is stashed as too high and nothing is delivered again")
+		}
+	}
+	if n == 0 {
+		c.Violation("", "-", "no-request-builder-returns", "no ResendRequest builder with a success return found")
 	}
 }
